@@ -117,7 +117,7 @@ def build(rng, *, cluster_bits: int, size: int, views: list[View], version: int 
           snapshots_meta: list[dict] | None = None, copied_random: bool = True, level: int = 6,
           tuned_frac: float = 0.3, compat: int = 0, autoclear: int = 0, incompat_extra: int = 0,
           refcount_order: int = 4, crypt_method: int = 0, compression_type: int = 0, pack_compressed: bool = True,
-          rand_info: bool = True, ext_end_marker: bool = True):
+          rand_info: bool = True, ext_end_marker: bool = True, snap_short_l1: bool = False):
     """-> (SparseFile image, SparseFile|None data_file, meta). views[0] is the active image, the rest snapshots."""
     cs = 1 << cluster_bits
     spc = cs // SECTOR
@@ -248,7 +248,13 @@ def build(rng, *, cluster_bits: int, size: int, views: list[View], version: int 
             stats["max_host_off"] = max(stats["max_host_off"], off)
         l1_off = lay[("l1", vi)]
         img.put(l1_off, struct.pack(f">{max(l1_size, 1)}Q", *(l1 or [0])))
-        l1_info.append((l1_off, l1_size))
+        l1_here = l1_size
+        if snap_short_l1 and vi > 0:
+            # a snapshot taken when the disk was smaller: its L1 table has fewer entries than the active one; whatever lies
+            # beyond it reads as zeros in the snapshot's view
+            used_l1 = max((t_ for t_, e_ in enumerate(l1) if e_), default=-1) + 1
+            l1_here = max(1, rng.randrange(used_l1, l1_size + 1)) if used_l1 < l1_size else l1_size
+        l1_info.append((l1_off, l1_here))
         for g, k in view.kinds.items():
             if k in ("N", "z", "S"):
                 off = dlay[("d", vi, g)]
